@@ -174,7 +174,9 @@ def observe(x):
         for e in x.get_edge_vector(include_root=True):
             edges[e.name] = [num(getattr(e, "length", None)), num({k: v for k, v in e.params.items() if k != "length"}),
                              None if e.parent is None else e.parent.name, [c.name for c in e.children]]
-        return dict(kind="tree", cls=type(x).__name__, newick=x.get_newick(with_distances=True, with_node_names=True), tips=x.get_tip_names(), edges=edges)
+        allnames = [e.name for e in x.get_edge_vector(include_root=True)]
+        return dict(kind="tree", cls=type(x).__name__, newick=x.get_newick(with_distances=True, with_node_names=True), tips=x.get_tip_names(), edges=edges,
+                    names_ok=None not in allnames and len(set(allnames)) == len(allnames))
     if isinstance(x, DistanceMatrix):
         return dict(kind="dmat", names=list(x.names), arr=num(x.array), d=num(x.to_dict()))
     if isinstance(x, DictArray):
@@ -1040,7 +1042,7 @@ def case_result(p):
             x[tuple(key) if isinstance(key, list) else key] = build_value(v)
     elif k == "model":
         lf = apply_lf_ops(build_lf(p["lf"]), p["lf"].get("ops", []), log)
-        x = R.model_result(name=p.get("name", lf.get_name() or "m"), source=p["source"], stat=sum if p.get("stat") == "sum" else min if p.get("stat") == "min" else sum,
+        x = R.model_result(name=p.get("name", lf.get_name() or "m"), source=p["source"], stat=max if p.get("stat") == "max" else sum,
                            **({"elapsed_time": p["elapsed"]} if p.get("elapsed") is not None else {}))
         x[p.get("key", "lf")] = lf
     elif k == "model_split":
